@@ -14,3 +14,5 @@ Definition run_cbo (o : cbo_options) (f : file) (c : class) : Z * list cref * Z 
 Definition position_table : list (list string) :=
   map (fun p => match pos_path p with Some l => map field_name l | None => ["LOST"%string] end) all_positions.
 Definition cbo_reached_table : list bool := map (fun p => reached cbo_walk_fields 0 p []) all_positions.
+
+Definition slot_table : list (list string) := map (fun s => map field_name (slot_path s)) all_slots.
